@@ -1,7 +1,10 @@
 package main
 
 import (
+	"bufio"
 	"fmt"
+	"io/ioutil"
+	"os"
 	"sort"
 	"strings"
 	"time"
@@ -21,6 +24,48 @@ func init() {
 	}
 	ops["clparse"] = func(a []string) string {
 		es, err := changelog.Parse(strings.NewReader(arg(a, 0)))
+		return showEntries(es, err)
+	}
+	// clvariants text: ParseFile on a real file, and ParseOne / ParseFileOne for the first entry, against Parse
+	ops["clvariants"] = func(a []string) string {
+		text := arg(a, 0)
+		ref := showEntries(changelog.Parse(strings.NewReader(text)))
+		f, err := ioutil.TempFile("/var/tmp", "verif-changelog-*")
+		if err != nil {
+			return "harness-error"
+		}
+		name := f.Name()
+		defer os.Remove(name)
+		f.WriteString(text)
+		f.Close()
+		if got := showEntries(changelog.ParseFile(name)); got != ref {
+			return "diff ParseFile " + got
+		}
+		one, err1 := changelog.ParseOne(bufio.NewReader(strings.NewReader(text)))
+		fone, err2 := changelog.ParseFileOne(name)
+		s1, s2 := "err", "err"
+		if err1 == nil && one != nil {
+			s1 = showEntries(changelog.ChangelogEntries{*one}, nil)
+		}
+		if err2 == nil && fone != nil {
+			s2 = showEntries(changelog.ChangelogEntries{*fone}, nil)
+		}
+		if s1 != s2 {
+			return "diff ParseFileOne " + s2 + " ParseOne " + s1
+		}
+		// the first entry alone is the first entry of the whole file (when the whole file parses)
+		if strings.HasPrefix(ref, "ok [ ") && s1 != "err" {
+			es, _ := changelog.Parse(strings.NewReader(text))
+			if first := showEntries(es[:1], nil); first != s1 {
+				return "diff ParseOne " + s1 + " first-of-Parse " + first
+			}
+		}
+		return "same"
+	}
+}
+
+func showEntries(es changelog.ChangelogEntries, err error) string {
+	{
 		if err != nil {
 			if len(es) != 0 {
 				return "err-with-value"
